@@ -14,6 +14,7 @@ pub mod c15;
 pub mod c16;
 pub mod c17;
 pub mod gen;
+pub mod srv;
 
 use crate::util::Part;
 
@@ -25,6 +26,11 @@ pub fn small_build() -> bool {
 pub fn run(property: &str, thorough: bool) -> Option<Vec<Part>> {
     match property {
         "C01" => Some(c01::run(thorough)),
+        "C07" => Some(srv::c07(thorough)),
+        "C08" => Some(srv::c08(thorough)),
+        "C09" => Some(srv::c09(thorough)),
+        "C10" => Some(srv::c10(thorough)),
+        "C18" => Some(srv::c18(thorough)),
         "C02" => Some(c02::run(thorough)),
         "C03" => Some(c03::run(thorough)),
         "C04" => Some(c04::run(thorough)),
